@@ -2,7 +2,7 @@
 CFG = dict(
         coq=["props/C04.vo", "props/Compose.vo"],
         compose=['Compose_ingest_table_wf', 'Compose_wf_tables', 'Compose_sorter_table', 'Compose_ingest_diff'],
-        tie=["gen/Tie_C04.vo", "gen/Tie_Code_RowAddr.vo", "gen/Tie_Code_Overlap.vo"],
+        tie=["gen/Tie_C04.vo", "gen/Tie_Code_RowAddr.vo", "gen/Tie_Code_Overlap.vo", "gen/Tie_Code_BlockIndexGet.vo"],
         model_vo=["model/Diff.vo", "model/DiffSpec.vo", "model/DiffHashed.vo"],
         extract="Ex_C04",
         level_text="C04_diff_correct: for all well-formed tables (any number of blocks, either side empty, any block size) the "
